@@ -558,8 +558,8 @@ impl Scenario for ArtefactMedium {
             stub: &["the medium (byte-level fault plan)"],
             assumptions: &["alpha=1024, beta=1MiB: calibrated as 4x the largest fault-free peak/len ratio observed (wire decode of dense one-byte-opcode scripts ~185x); the fault-free ratio histogram is written to evidence on every run", "text decoders receive String::from_utf8_lossy of the damaged bytes (Rust strings are valid UTF-8 by construction)", "overflow-checks are on, as in the repository's own test profile"],
             required_probes: &["fault:truncate", "fault:inflate", "fault:flip", "misdelivered", "decode_ok", "decode_err", "fault_free_decode"],
-            quick_runs: 60_000,
-            thorough_runs: 6_000_000,
+            quick_runs: 300000,
+            thorough_runs: 12000000,
             rlimit_as: 8 << 30,
             alloc_abort_is_violation: true,
         }
